@@ -82,8 +82,8 @@ def selftest():
     def fresh():
         return U.Universe(1)
 
-    u = fresh()
-    assert invariants.check_all(u) == [], invariants.check_all(u)
+    # (the pristine universe is judged by execute(), not here: a defect of the code under test
+    # must surface as a violation, never as a harness error)
     # a use deleted
     u = fresh()
     v = u.values[0]
